@@ -196,8 +196,15 @@ def check_poly(rnd, rec, P, fpa, deg, mode, big=False):
             if back != cs:
                 rec.violation("asrpolynomial-roundtrip", wit(reverse=rev, coeffs=cs, rcoeffs=rc))
             want = direct(cs[::-1] if rev else cs, x)
-            for modname, call in (("poly", lambda: P.rpolynomial(x, rc, reverse=rev)), ("fpa", lambda: fpa.rpolynomial(QCtx(), x, rc, reverse=rev))):
-                got = call()
+            from functional_algorithms import utils as fa_utils_
+
+            for modname, call in (("poly", lambda: P.rpolynomial(x, rc, reverse=rev)), ("fpa", lambda: fpa.rpolynomial(QCtx(), x, rc, reverse=rev)),
+                                  ("fpa:FractionContext", lambda: fpa.rpolynomial(fa_utils_.FractionContext(), x, rc, reverse=rev))):
+                try:
+                    got = call()
+                except Exception as e:
+                    rec.violation(f"{modname.split(':')[0]}.rpolynomial-exception", wit(reverse=rev, context=modname, coeffs=cs if deg < 12 else None, x=x, exc=f"{type(e).__name__}: {e}"[:200]))
+                    continue
                 if got != want:
                     rec.violation(f"{modname}.rpolynomial-value", wit(reverse=rev, coeffs=cs if deg < 12 else None, x=x, got=got, want=want))
             if deg >= 1:
